@@ -33,11 +33,12 @@ const (
 	rsQuery                   // open / close a query
 	rsReset
 	rsLate // first use of a resource type (registration + Add/Get/Remove), possibly while a query is open
-	rsLazy // A=type: Get through a long-lived generic mapper that is used only by explicit operations (never by the oracle)
+	rsResetLocked // Reset while a query is open: must panic and leave the resources alone
+	rsLazy        // A=type: Get through a long-lived generic mapper that is used only by explicit operations (never by the oracle)
 )
 
 func (c *resCfg) OpKind(op wx.Op) string {
-	return [...]string{"", "Add", "Remove", "EntityOp", "Query open/close", "Reset", "first use of a new resource type", "long-lived mapper Get"}[op.K]
+	return [...]string{"", "Add", "Remove", "EntityOp", "Query open/close", "Reset", "first use of a new resource type", "Reset (locked world)", "long-lived mapper Get"}[op.K]
 }
 
 func (c *resCfg) OpString(op wx.Op) string {
@@ -146,6 +147,9 @@ func (r *resRun) Enabled() []wx.Op {
 		ops = append(ops, wx.Op{K: rsReset})
 	}
 	ops = append(ops, wx.Op{K: rsQuery})
+	if r.q != nil {
+		ops = append(ops, wx.Op{K: rsResetLocked})
+	}
 	if !r.late {
 		ops = append(ops, wx.Op{K: rsLate})
 	}
@@ -337,6 +341,12 @@ func (r *resRun) Apply(op wx.Op) wx.Result {
 		if n := len(ecs.ResourceIDs(w)); n != before+1 {
 			return r.fail("res:first-use-ids", fmt.Sprintf("ResourceIDs has %d entries after registering one more type (was %d)", n, before))
 		}
+	case rsResetLocked:
+		r.outcome = "illegal:reset-locked"
+		if pv := catchP(func() { w.Reset() }); pv == nil {
+			return r.fail("nopanic:reset-locked", "Reset on a locked world did not panic")
+		}
+		// the state oracle compares the resources with the unchanged model
 	case rsReset:
 		w.Reset()
 		r.present = [3]int{}
